@@ -129,6 +129,22 @@ new={
 'C17-10':('`QueryParams` parses with `errors="surrogateescape"`','a raw query string with a percent-escape that is not UTF-8 (`%FF`)'),
 'C20-9':('relayed headers rebuilt through `MutableHeaders.append` + `__setitem__` tests `str.isprintable()`','an inner header value with a tab, NBSP or UTF-8 bytes 0x80–0x9F'),
 'C20-10':('WSGI relay adds a Content-Length for a one-element list body','an inner app returning `[body]` without a Content-Length'),
+'C03-9':('`parse_range` scans with a precompiled pattern and stops after 256 specs','a range set of more than 256 specs whose later specs add bytes or are unsatisfiable'),
+'C03-10':('ASGI FileResponse decodes Range / If-Range as UTF-8 instead of Latin-1','a Range value with an octet >= 0x80 (invalid UTF-8, or UTF-8 that spells a non-ASCII digit), ASGI only'),
+'C08-9':('`Route.matches` writes the converted values into one dict kept on the Route object','a request that reads its path parameters after a later request matched the same route'),
+'C08-10':('`DecimalConvertor.to_string` through `value.normalize()`','a decimal value of more than 28 significant digits'),
+'C09-9':('host patterns compiled with `re.IGNORECASE`','a Host header differing from what an entry accepts only in letter case'),
+'C09-10':('Subpaths returns the `""` default entry without the boundary test','a path that does not begin with `/` (`*`, `x`) and a table with a default entry'),
+'C11-9':('`send()` dispatches on the event type first: a close event never reaches the already-closed check','a raw `websocket.close` event passed to `send()` after the application closed'),
+'C11-10':('`send()` records the state transition before validating the event','an illegal send while connecting (raises), then a second call on the same object'),
+'C15-9':('File vs Field decided by `if filename:`','a file part with `filename=""` and non-empty content'),
+'C15-10':('helpers test the current sink by truth value','a `file_factory` whose objects are falsy while empty (define `__len__`)'),
+'C16-9':('Expires computed from the construction time of the response object','a response object older than a second when `set_cookie` is called'),
+'C16-10':('`set_cookie` drops an earlier cookie of the same name','two cookies of one name with different path or domain on one response'),
+'C18-9':('ASGI URL does not prepend the root path when the path already begins with it','a path that textually begins with the root path (`/api` + `/apiary`)'),
+'C18-10':('query parsing memoised with `lru_cache` + `MultiMapping` keeps the list it is handed','an earlier include/remove call on the same query text in the process'),
+'C19-9':('WSGI relay tests "producer gone" with `not running()` after an idle interval','more event streams open than pool workers, or `ping_interval=0`'),
+'C19-10':('`event`/`id`/`retry` lines always encoded as UTF-8','a non-UTF-8 charset and a non-ASCII event name or id'),
 }
 ds=sorted(glob.glob('/verif/seeded/C*-*'), key=lambda s:(s.split('/')[-1][:3], int(s.split('-')[1])))
 missing=[]
